@@ -229,3 +229,28 @@ def c20_slice_boundary(ctx, dim, shape):
             by_name = img.slice(float(coord[a_i]), a)
             ctx.ensure(f"slice({float(coord[a_i])!r}, {a!r}) is layer {idx} of matrix axis {m_i} - the voxel the coordinate system assigns to the cut",
                        same(by_name.img, np.take(arr, idx, axis=m_i)))
+
+
+@ob("C20.negative_axis", kind="B", cases=[dict(dim=2, payload=p) for p in ("scalar", "vector", "series")] + [dict(dim=3, payload="scalar")], funcs=FUNCS, samples=(1, 2),
+    cite="Addressing an axis of an image by its Cartesian name or by its matrix index (in slicing and in reduction) selects the same data",
+    note="bounded: an integer axis outside 0..dim-1 (numpy-style negative index) is either REFUSED or addresses the axis numpy would address - never silently something else "
+         "(after seed C20_i: the assertion was widened to negative indices that the data operations do not normalise)")
+def c20_negative_axis(ctx, dim, payload):
+    rng = np.random.default_rng(ctx.rng.randrange(1 << 30))
+    shape = (3, 4) if dim == 2 else (2, 3, 4)
+    full = shape + ((2,) if payload == "series" else ()) + ((3,) if payload == "vector" else ())
+    kw = dict(space_dim=dim, scalar=payload != "vector", dimensions=[1.5, 2.0, 0.5][:dim])
+    if payload == "series":
+        kw.update(series=True, time=[0.0, 1.0])
+    img = darsia.Image(rng.random(full), **kw)
+    for neg in range(-dim, 0):
+        pos = neg + dim
+        for name, call in (("reduce_axis", lambda ax: darsia.reduce_axis(img, ax)), ("slice", lambda ax: img.slice(1, ax))):
+            ref = call(pos)
+            try:
+                got = call(neg)
+            except (AssertionError, ValueError, IndexError, KeyError, NotImplementedError):
+                ctx.ensure(f"{name}(axis={neg}) is refused", True)
+                continue
+            ctx.ensure(f"{name}(axis={neg}) accepted => same data and metadata as axis={pos}", got.img.shape == ref.img.shape and bool(np.allclose(got.img, ref.img))
+                       and bool(np.allclose(got.origin, ref.origin)) and bool(np.allclose(got.dimensions, ref.dimensions)))
